@@ -214,6 +214,7 @@ def build():
             stack.extend(t.children())
         return [xdom(a.arg(0), a.arg(1), p) for a in apps.values() for p in idx.values()]
 
+    inst_xdom.encodes = {"xfold-dom"}            # off while that lemma is proved (no circularity)
     lib.extra_instantiators.append(inst_xdom)
     phas_t = lambda m, p: z3.Not(PM.opt.is_none(z3.Select(m, p)))
     pdom = lambda s, p: phas_t(pfold.t(s), p) == z3.Contains(nodes_of.t(s), z3.Unit(p))
@@ -240,14 +241,18 @@ def build():
         out += [pclosed(r, a.arg(0), p) for a in apps.values() for p in idx.values() for r in roots.values()]
         return out
 
+    inst_pdom.encodes = {"pfold-dom", "pfold-closed"}
     lib.extra_instantiators.append(inst_pdom)
 
     def xd_base(bank):
         return [], xdom(r_, z3.Empty(SI.z3()), p_)
 
+    q_ = z3.Const("q_xd", REF.z3())
+
     def xd_step(bank):
         x = z3.Const("x_xd", INFO.z3())
-        return [xdom(r_, s_, p_)], xdom(r_, mk_snoc(s_, x), p_)
+        # the induction hypothesis holds for every key; it is needed at the key asked about and at the new element's node and parent
+        return [xdom(r_, s_, k_) for k_ in (p_, node_of(x), par_of(x))], xdom(r_, mk_snoc(s_, x), p_)
     def pc_base(bank):
         a = z3.Const("a_pc", SI.z3())
         return [], z3.Implies(pre_closed.t(r_, z3.Concat(a, z3.Empty(SI.z3()))), pre_closed.t(r_, a))
@@ -265,14 +270,16 @@ def build():
 
     def pd_step(bank):
         x = z3.Const("x_pd", INFO.z3())
-        return [pdom(s_, p_)], pdom(mk_snoc(s_, x), p_)
+        return [pdom(s_, k_) for k_ in (p_, node_of(x))], pdom(mk_snoc(s_, x), p_)
 
     def pcl_base(bank):
         return [], pclosed(r_, z3.Empty(SI.z3()), p_)
 
     def pcl_step(bank):
         x = z3.Const("x_pcl", INFO.z3())
-        return [pclosed(r_, s_, p_), pdom(s_, p_)], pclosed(r_, mk_snoc(s_, x), p_)
+        keys = (p_, node_of(x), par_of(x))
+        # induction hypothesis and lemma pfold-dom for the shorter stream, at the keys involved
+        return [pclosed(r_, s_, k_) for k_ in keys] + [pdom(s_, k_) for k_ in keys], pclosed(r_, mk_snoc(s_, x), p_)
     lem1 = Lemma("pfold-dom", [("base", pd_base), ("step", pd_step)], P, note="has(pfold(s), p) <=> p is the node of an element of s")
     lem2 = Lemma("pfold-closed", [("base", pcl_base), ("step", pcl_step)], P, note="in a parent-closed stream the recorded parent of a member is the root or a member")
     lem = [lem0, lem1, lem2, Lemma("xfold-dom", [("base", xd_base), ("step", xd_step)], P, note="has(xfold(root, s), p) <=> p is root or p is the node of an element of s")]
